@@ -48,7 +48,7 @@ TREES = [
 
 
 # ============================================================================ generation
-def _task(rng, gid, seed, tier, mode=None, root=None, graft=None, dy=False, well=False):
+def _task(rng, gid, seed, tier, mode=None, root=None, graft=None, dy=False, well=False, comp=False):
     T = 6 if tier == "quick" else rng.choice([6, 6, 10, 20])
     sched = rng.random() < 0.25
     c = {
@@ -74,8 +74,17 @@ def _task(rng, gid, seed, tier, mode=None, root=None, graft=None, dy=False, well
         "diag_eps": rng.choice([1e-10, 1e-10, 1e-6]),
         "clip": None, "T": T, "shapes": rng.choice(TREES),
         "grad": {"kind": "randn", "scale": rng.choice([1.0, 1.0, 1e-2, 30.0]), "seed": seed * 100003 + gid},
-        "zero": [],
+        "zero": [], "comp": 0,
     }
+    if comp:
+        # compression_rank: at least one statistic must be larger than |rank| + 2 (else the package rejects the configuration)
+        c["comp"] = rng.choice([1, 2, -1, -2])
+        c["block"] = rng.choice([8, 8, 128])
+        c["best_effort"] = False
+        c["shapes"] = rng.choice([t_ for t_ in TREES if any(len(s_) >= 2 and max(s_) >= 5 for s_ in t_.values())])
+        c["skip_dim_gt"] = 4096
+        c["root"] = "newton"
+        c["mat_eps"] = rng.choice([1e-6, 1e-4, 1e-2])
     if c["graft"].startswith("RMSPROP"):
         c["clip"] = rng.choice([None, None, 0.5, 2.0])
     if well:
@@ -126,6 +135,10 @@ def gen_tasks(tier, seed):
             gid += 1
             tasks.append(_task(rng, gid, seed, tier, root=("eigh" if k % 2 == 0 else "newton"), well=True,
                                mode=("sharded" if k % 5 == 4 else "replicated")))
+        # compressed (low-rank packed) preconditioners: the compressed branch of _precondition_block
+        for k in range(8):
+            gid += 1
+            tasks.append(_task(rng, gid, seed, tier, comp=True, mode=("sharded" if k % 4 == 3 else "replicated")))
         # dyadic histories: statistics EXACT-DYADIC
         for k in range(10):
             gid += 1
@@ -138,8 +151,29 @@ def gen_tasks(tier, seed):
     for c in tasks:
         if c["mode"] == "sharded" and not _has_preconditioned_leaf(c):
             c = dict(c, mode="replicated")
+        if c.get("comp") and not _max_stat_dim(c) > abs(c["comp"]) + 2:
+            c = dict(c, comp=0)
         out.append(c)
     return out
+
+
+def _max_stat_dim(c):
+    m = 0
+    for shp in c["shapes"].values():
+        if _py_skip(c, shp):
+            continue
+        ts = _py_tshape(c, shp)
+        should = _py_should(c, len(ts))
+        for a, d in enumerate(ts):
+            if should[a]:
+                m = max(m, max(hi - lo for lo, hi in _py_ranges(d, c["block"])))
+    return m
+
+
+def _pd(c, s):
+    """_precond_dim: columns of the stored preconditioner of an s x s statistic"""
+    r = abs(c.get("comp", 0))
+    return r + 2 if (r and r + 2 < s) else s
 
 
 # ============================================================================ independent geometry (oracle side)
@@ -242,7 +276,7 @@ def _build(c):
         clip_by_scaled_gradient_norm=c["clip"], relative_matrix_epsilon=c["rel_eps"],
         merge_small_dims_block_size=c["merge_block"], precondtioner_type=getattr(ds.PreconditionerType, c["ptype"]),
         skip_preconditioning_rank_lt=c["skip_rank_lt"], decoupled_learning_rate=c["dlr"],
-        decoupled_weight_decay=c["dwd"], eigh=(c["root"] == "eigh"),
+        decoupled_weight_decay=c["dwd"], eigh=(c["root"] == "eigh"), compression_rank=c.get("comp", 0),
         shard_optimizer_states=sharded,
         statistics_partition_spec=P("x", None, None) if sharded else None,
         preconditioner_partition_spec=P("x", None, None) if sharded else None,
@@ -251,7 +285,7 @@ def _build(c):
     return opt, mesh
 
 
-def _view(state, names, sharded):
+def _view(state, names, sharded, c=None):
     """per parameter: statistics, preconditioners (cropped), first-order state, root metrics"""
     import numpy as np
     v = {"count": int(state.count)}
@@ -262,7 +296,7 @@ def _view(state, names, sharded):
             i0 = int(loc.index_start)
             sizes = [int(x) for x in loc.sizes]
             Ss = [np.asarray(g.statistics[i0 + k])[:s, :s] for k, s in enumerate(sizes)]
-            Ps = [np.asarray(g.preconditioners[i0 + k])[:s, :s] for k, s in enumerate(sizes)]
+            Ps = [np.asarray(g.preconditioners[i0 + k])[:s, :_pd(c or {}, s)] for k, s in enumerate(sizes)]
             ex = [int(x) for x in np.asarray(g.exponents)[i0:i0 + len(sizes)]]
         else:
             loc = state.stats[n]
@@ -299,11 +333,11 @@ def _run_impl(c, names, params, grads):
     with cm:
         state = opt.init(None).init_fn(jp) if sharded else opt.init(jp)
         upd = jax.jit(opt.update)
-        views.append(_view(state, names, sharded))
+        views.append(_view(state, names, sharded, c))
         for g in grads:
             u, state = upd({n: jnp.asarray(g[n]) for n in names}, state, jp)
             ups.append({n: np.asarray(u[n]) for n in names})
-            views.append(_view(state, names, sharded))
+            views.append(_view(state, names, sharded, c))
     return ups, views
 
 
@@ -351,6 +385,21 @@ def _np_stats(c, shp, S, g, t):
     return out
 
 
+def _np_denote(P):
+    """the matrix a stored preconditioner stands for: itself, or for a packed d x (r+2) one c (I - V V^T) + V diag(e) V^T
+    (the identity when the has_zeros flag P[-1, -2] is set)"""
+    import numpy as np
+    P = np.asarray(P, np.float64)
+    d, cdim = P.shape if P.ndim == 2 else (0, 0)
+    if d == cdim:
+        return P
+    r = cdim - 2
+    V, e, cc, flag = P[:, :r], P[:r, r], P[0, r + 1], P[d - 1, r] != 0
+    if flag:
+        return np.eye(d)
+    return cc * (np.eye(d) - V @ V.T) + (V * e) @ V.T
+
+
 def _np_precond(c, shp, P, g):
     """blocked mode products; returns (preconditioned gradient, amplification = max over blocks of
     prod ||P_a||_2 ||G_b||_F / ||PG_b||_F)"""
@@ -368,7 +417,7 @@ def _np_precond(c, shp, P, g):
         bound = float(np.linalg.norm(y))
         for a in range(len(ts)):
             if should[a]:
-                Pm = np.asarray(P[b * k + j], np.float64)
+                Pm = _np_denote(P[b * k + j])
                 y = np.moveaxis(np.tensordot(Pm.T, y, axes=(1, a)), 0, a)
                 bound *= float(np.linalg.norm(Pm, 2)) if Pm.size else 1.0
                 j += 1
@@ -455,6 +504,13 @@ def _hexes(a):
     return [kit.f32_hex(x) for x in np.asarray(a, np.float32).reshape(-1)]
 
 
+def _pjson(p_):
+    """square: flat list; packed d x (r+2): object"""
+    if p_.shape[0] == p_.shape[1]:
+        return _hexes(p_)
+    return {"rows": int(p_.shape[0]), "cols": int(p_.shape[1]), "data": _hexes(p_)}
+
+
 TOL_STATE = 2e-5       # statistics, momenta, graft accumulators, updates on well-conditioned preconditioners
 TOL_AMP = 4e-6         # times the amplification factor of the mode products
 
@@ -511,15 +567,20 @@ def _run_task(c):
         if not skip and nst and L["exp_impl"] != p:
             fails.append({"what": f"{where0}: inverse root exponent {L['exp_impl']} != documented {p} "
                                   f"(2 x {k} preconditioned axes, override {c['override']})", "leaf": n, "t": 0})
-        # initial state: L0 = eps I, P0 = I
+        # initial state: L0 = eps I, P0 = I (packed: all zero; sharded + compression_rank starts EVERY preconditioner, also the
+        # uncompressed small ones, at zero -- the statement does not fix P0, so this is only counted)
+        if c.get("comp") and sharded and any(p_.shape[0] == p_.shape[1] and not np.any(p_ != 0) for p_ in views[0][n]["P"]):
+            stats["sharded_compressed_small_statistic_starts_at_zero"] = stats.get("sharded_compressed_small_statistic_starts_at_zero", 0) + 1
         for s_, p_ in zip(views[0][n]["S"], views[0][n]["P"]):
             d_ = s_.shape[0]
-            if _dev(s_, c["mat_eps"] * np.eye(d_)) > 1e-6 and c["mat_eps"] > 0 or _dev(p_, np.eye(d_)) > 0:
+            if _dev(s_, c["mat_eps"] * np.eye(d_)) > 1e-6 and c["mat_eps"] > 0 or \
+                    (((_dev(p_, np.eye(d_)) > 0) and not (c.get("comp") and sharded and not np.any(p_ != 0)))
+                     if p_.shape[1] == d_ else (p_.shape[1] != _pd(c, d_) or np.any(p_ != 0))):
                 fails.append({"what": f"{where0}: initial statistic / preconditioner is not matrix_epsilon*I / I", "leaf": n, "t": 0})
                 break
         # ---- end-to-end reference state (eigh only)
         e2e = None
-        if c["root"] == "eigh" and not skip and nst:
+        if c["root"] == "eigh" and not skip and nst and not c.get("comp"):
             e2e = {"S": [c["mat_eps"] * np.eye(d_) for d_ in L["dims_impl"]], "P": [np.eye(d_) for d_ in L["dims_impl"]],
                    "st": (np.zeros(tuple(shp)), np.zeros(tuple(shp)), np.zeros(tuple(shp))), "kappa": 1.0, "ok": True}
         for t in range(T):
@@ -549,7 +610,7 @@ def _run_task(c):
             if not skip and nst and c["root"] == "newton" and v1["err"] and v1["max_ev"] and v1["retries"]:
                 for s in range(nst):
                     changed = not np.array_equal(v1["P"][s], v0["P"][s])
-                    if not changed:
+                    if not changed or v1["P"][s].shape[0] != v1["P"][s].shape[1]:
                         continue
                     stats["refresh_changed"] += 1
                     err = v1["err"][s]
@@ -651,7 +712,7 @@ def _run_task(c):
                    "clip": (None if c["clip"] is None else kit.f64_hex(c["clip"])), "start": c["start"], "wd": kit.f64_hex(c["wd"]),
                    "dwd": c["dwd"], "nesterov": c["nesterov"], "mavg": c["mavg"], "step": t, "si": c["si"],
                    "g": _hexes(grads[t][n]), "param": _hexes(params[n]), "stats": S0h,
-                   "preconds_before": [_hexes(p_) for p_ in v0["P"]], "preconds_after": [_hexes(p_) for p_ in v1["P"]],
+                   "preconds_before": [_pjson(p_) for p_ in v0["P"]], "preconds_after": [_pjson(p_) for p_ in v1["P"]],
                    "sharded": sharded,
                    "diag": _hexes(v0["diag"]), "dmom": _hexes(v0["dmom"]), "mom": _hexes(v0["mom"])}
             reqs.append({"leaf": n, "t": t, "kind": "step", "req": req})
@@ -660,6 +721,9 @@ def _run_task(c):
             rec["dmom"] = [float(z) for z in v1["dmom"].reshape(-1)]
             rec["mom"] = [float(z) for z in v1["mom"].reshape(-1)]
             rec["tol"] = tol if math.isfinite(tol) and finite_state else None
+            rec["packed"] = any(p_.shape[0] != p_.shape[1] for p_ in [*v0["P"], *v1["P"]])
+            if rec["packed"]:
+                stats["packed_steps"] = stats.get("packed_steps", 0) + 1
             rec["sc"] = {k_: (float(v_) if math.isfinite(v_) else 0.0) for k_, v_ in sc.items()}
             if c["grad"]["kind"] == "dyadic" and not skip and nst:
                 reqs.append({"leaf": n, "t": t, "kind": "stats", "req": {
@@ -789,12 +853,20 @@ def compare(ctx, o, replies):
             if not ok:
                 ctx.disagree(nm, _case(o, leaf, t), [a[:4] for a in rec["S1"][:2]], [[float(z) for z in _f64s(b)[:4]] for b in ms[:2]])
         tol = rec["tol"]
-        if rep["spec"] is not None and rep["low"] is not None:
+        if rep["spec"] is not None and rep["low"] is not None and not rec.get("packed"):
             ok = all(rep["spec"][f_] == rep["low"][f_] for f_ in ("upd", "mom", "dmom", "diag")) and rep["pg_spec"] == rep["pg_low"] \
                 and rep["stats_spec"] == rep["stats_low"]
             ctx.corr("model.low_eq_spec[EXACT]", ok)
             if not ok:
                 ctx.disagree("model.low_eq_spec[EXACT]", _case(o, leaf, t), "Low", "Spec", "the two Lean models differ on this input")
+        elif rep["spec"] is not None and rep["low"] is not None and rec["tol"] is not None:
+            # packed application (Low) and dense application of the denoted matrix (Spec) round differently in binary64
+            a_, b_ = _f64s(rep["low"]["upd"]), _f64s(rep["spec"]["upd"])
+            ok = (not (np.isfinite(a_).all() and np.isfinite(b_).all())) or _dev(a_, b_, rec["sc"]["upd"]) <= 1e-9 * max(1.0, rec["tol"] / TOL_AMP)
+            ctx.corr("model.low_packed_eq_spec_denoted[TOL 1e-9 amp]", ok)
+            if not ok:
+                ctx.disagree("model.low_packed_eq_spec_denoted[TOL 1e-9 amp]", _case(o, leaf, t), "Low", "Spec",
+                             f"deviation {_dev(a_, b_, rec['sc']['upd']):.3e}")
         for which in ("spec", "low"):
             r = rep[which]
             if r is None:
@@ -833,7 +905,7 @@ def const_stage(ctx):
 
 
 def _tag(t):
-    return f"{t['mode']}.{t['root']}" + (".x64" if t.get("x64") else "") + (".dyadic" if t["grad"]["kind"] == "dyadic" else "")
+    return f"{t['mode']}.{t['root']}" + (".compressed" if t.get("comp") else "") + (".x64" if t.get("x64") else "") + (".dyadic" if t["grad"]["kind"] == "dyadic" else "")
 
 
 def _dev_filter(ctx, tasks):
@@ -841,7 +913,7 @@ def _dev_filter(ctx, tasks):
     only = os.environ.get("C02_ONLY")
     if not cap and not only:
         return tasks
-    keep = [t for t in tasks if not only or t["mode"] in only.split(",")]
+    keep = [t for t in tasks if not only or t["mode"] in only.split(",") or ("comp" in only.split(",") and t.get("comp"))]
     if cap:
         keep = keep[:int(cap)]
     ctx.notes.append(f"DEV FILTER ACTIVE (C02_ONLY={only}, C02_MAXTASKS={cap}): {len(keep)} of {len(tasks)} tasks run")
@@ -882,7 +954,8 @@ def execute(ctx, tasks):
         st = o.get("stats", {})
         ctx.evaluated(st.get("steps", 0))
         ctx.cov["search_evaluations"] += st.get("steps", 0)
-        for k_ in ("e2e", "e2e_inconclusive", "root_checked", "root_inconclusive", "ill_conditioned_updates", "refresh_changed"):
+        for k_ in ("e2e", "e2e_inconclusive", "root_checked", "root_inconclusive", "ill_conditioned_updates", "refresh_changed", "packed_steps",
+                   "sharded_compressed_small_statistic_starts_at_zero"):
             if st.get(k_):
                 ctx.dist("steps." + k_, st[k_])
         for k_ in agg:
@@ -901,7 +974,9 @@ def run(ctx):
         ctx.cov["dev_nolean"] = True
         ctx.cov["obligations"], ctx.cov["discharged"] = 1, 0
     else:
-        ctx.lean_stage()
+        kit.gen_stage(ctx)
+        ctx.lean_stage(extra_props=("Gen",))
+        ctx.notes.append("model tie #2: merge_small_dims, BlockPartitioner.__init__, should_precondition_dims, exponent_for_preconditioner, _preconds_for_grad regenerated from the source by harness/py2lean.py on this run; bridge theorems PrecondVerif.GenProps.C02.* (Props/Gen.lean) prove them equal to the Model/Shapes.lean functions Geom is built from")
     const_stage(ctx)
     tasks = gen_tasks(ctx.tier, ctx.seed)
     ctx.cov["rule"] = (
